@@ -92,3 +92,36 @@ theorem hasSum_sFun_sqrt (u : ℝ) (hu : 0 ≤ u) : HasSum (aTerm 1 u) (sFun (Re
   rw [e]; exact hd
 
 end Tail
+
+namespace Tail
+open RotExp Rot
+
+/-- Σₖ (−u)ᵏ/(2k+4)! = (u/2 + cos √u − 1)/u²  for u > 0 (the coefficient of ω^² in the position integral of the
+    strap-down flow): the m = 2 series without its first term, divided by −u -/
+theorem hasSum_aTerm4 (u : ℝ) (hu : 0 < u) :
+    HasSum (aTerm 4 u) ((u / 2 + Real.cos (Real.sqrt u) - 1) / u ^ 2) := by
+  have hc := hasSum_cFun_sqrt u hu.le
+  have h1 : HasSum (fun k => aTerm 2 u (k + 1)) (cFun (Real.sqrt u) - ∑ k ∈ Finset.range 1, aTerm 2 u k) :=
+    (hasSum_nat_add_iff' 1).mpr hc
+  have e0 : ∑ k ∈ Finset.range 1, aTerm 2 u k = 1 / 2 := by simp [aTerm]
+  rw [e0] at h1
+  have e : (fun k => aTerm 2 u (k + 1)) = fun k => -u * aTerm 4 u k := by
+    funext k
+    unfold aTerm
+    rw [show 2 * (k + 1) + 2 = 2 * k + 4 by ring, pow_succ, pow_succ]
+    ring
+  rw [e] at h1
+  have h2 := h1.mul_left (-u)⁻¹
+  have hne : -u ≠ 0 := by linarith
+  have e2 : (fun k => (-u)⁻¹ * (-u * aTerm 4 u k)) = aTerm 4 u := by
+    funext k; field_simp
+  rw [e2] at h2
+  have hsq : Real.sqrt u ^ 2 = u := Real.sq_sqrt hu.le
+  have hs0 : Real.sqrt u ≠ 0 := (Real.sqrt_pos.mpr hu).ne'
+  have hv : (-u)⁻¹ * (cFun (Real.sqrt u) - 1 / 2) = (u / 2 + Real.cos (Real.sqrt u) - 1) / u ^ 2 := by
+    simp only [cFun, if_neg hs0, hsq]
+    field_simp
+    ring
+  rw [← hv]; exact h2
+
+end Tail
